@@ -55,6 +55,12 @@ struct Run {
 /// Run jaq under strace in `dir`; `inputs` are the input file arguments in order (the first one marks the
 /// start of the execution phase).
 fn traced(dir: &Path, args: &[String], inputs: &[String], env: &[(&str, &str)]) -> std::io::Result<Run> {
+    traced_ip(dir, args, inputs, env, false)
+}
+
+/// `in_place`: the documented exception - a temporary file may be created next to an input file, and must
+/// then be renamed onto that input file or removed again before the process ends
+fn traced_ip(dir: &Path, args: &[String], inputs: &[String], env: &[(&str, &str)], in_place: bool) -> std::io::Result<Run> {
     let n = DIRN.fetch_add(1, std::sync::atomic::Ordering::Relaxed);
     let log = dir.join(format!("trace-{n}.log"));
     let mut a: Vec<String> = vec!["-c".into(), "cd \"$0\" || exit 99; exec timeout 120 strace -f -qq -o \"$1\" -e trace=\"$2\" \"$@\"".into(), dir.to_string_lossy().into_owned(), log.to_string_lossy().into_owned(), TRACED.into()];
@@ -73,6 +79,7 @@ fn traced(dir: &Path, args: &[String], inputs: &[String], env: &[(&str, &str)]) 
     let mut tz_lookups = 0;
     let mut phase = false;
     let mut remaining: Vec<&String> = inputs.iter().collect();
+    let mut created: Vec<String> = Vec::new();
     for line in trace.lines() {
         let rest = line.trim_start_matches(|c: char| c.is_ascii_digit()).trim_start();
         if rest.starts_with("+++") || rest.starts_with("---") || rest.starts_with("<...") {
@@ -88,6 +95,25 @@ fn traced(dir: &Path, args: &[String], inputs: &[String], env: &[(&str, &str)]) 
                 remaining.remove(0);
             }
             continue;
+        }
+        if in_place {
+            let base = |p: &str| p.rsplit('/').next().unwrap_or(p).to_string();
+            let is_input = |p: &str| inputs.iter().any(|f| f == p || p.ends_with(&format!("/{f}")));
+            if is_open && rest.contains("O_CREAT") && rest.contains("O_EXCL") && quoted.first().map_or(false, |p| base(p).starts_with("jaq")) {
+                created.push(quoted[0].to_string());
+                continue;
+            }
+            if matches!(name, "rename" | "renameat" | "renameat2") && quoted.len() >= 2 && created.iter().any(|c| c == quoted[0]) && is_input(quoted[1]) {
+                created.retain(|c| c != quoted[0]);
+                continue;
+            }
+            if matches!(name, "unlink" | "unlinkat") && quoted.first().map_or(false, |p| created.iter().any(|c| c == p)) {
+                created.retain(|c| c != quoted[0]);
+                continue;
+            }
+            if matches!(name, "chmod" | "fchmodat" | "fchmod") && quoted.first().map_or(true, |p| is_input(p)) {
+                continue;
+            }
         }
         if is_open {
             let path = quoted.first().cloned().unwrap_or("");
@@ -106,6 +132,9 @@ fn traced(dir: &Path, args: &[String], inputs: &[String], env: &[(&str, &str)]) 
         } else {
             offences.push(format!("{}", rest.chars().take(200).collect::<String>()));
         }
+    }
+    for c in created {
+        offences.push(format!("a file created during execution was neither renamed onto an input file nor removed: {c}"));
     }
     Ok(Run { status: out.status, stdout: out.out_str(), stderr: out.err_str(), offences, tz_lookups, boundary_found: phase })
 }
@@ -334,6 +363,15 @@ const DOCS: &[(&str, &str)] = &[
     ("xml", "<a xmlns:xsi=\"http://www.w3.org/2001/XMLSchema-instance\" xsi:schemaLocation=\"urn:x CANARY\" xsi:noNamespaceSchemaLocation=\"CANARY\"/>"),
     ("xml", "<!DOCTYPE html PUBLIC \"-//W3C//DTD XHTML 1.0 Strict//EN\" \"http://www.w3.org/TR/xhtml1/DTD/xhtml1-strict.dtd\"><html xmlns=\"http://www.w3.org/1999/xhtml\"><head><link href=\"CANARY\"/></head></html>"),
     ("xml", "<a href=\"CANARY\">CANARY<!-- CANARY --><![CDATA[CANARY]]></a>"),
+    // documents that are not valid UTF-8 and declare (or not) another encoding: \u{1} stands for the byte 0xE9
+    ("xml", "<?xml version=\"1.0\" encoding=\"ISO-8859-1\"?><a>caf\u{1} CANARY</a>"),
+    ("xml", "<?xml version=\"1.0\" encoding=\"UTF-7\"?><a x=\"\u{1}\">CANARY</a>"),
+    ("xml", "<?xml version=\"1.0\" encoding=\"CANARY\"?><a>\u{1}</a>"),
+    ("xml", "<?xml version=\"1.0\" encoding=\"UTF-16\"?><a>\u{1}\u{1}</a>"),
+    ("yaml", "a: \"caf\u{1}\" # CANARY\n"),
+    ("toml", "a = \"caf\u{1} CANARY\"\n"),
+    ("csv", "caf\u{1},CANARY\n"),
+    ("json", "\"caf\u{1} CANARY\""),
     ("yaml", "a: !include CANARY\n"),
     ("yaml", "!!python/object/apply:os.system [\"touch CANARY.pwned\"]\n"),
     ("yaml", "%TAG ! tag:CANARY,2000:\n--- !thing\na: 1\n"),
@@ -383,7 +421,13 @@ fn render_doc(template: &str, canary: &str) -> Vec<u8> {
         }
         out
     } else {
-        template.replace("CANARY", canary).into_bytes()
+        let mut b = template.replace("CANARY", canary).into_bytes();
+        for x in b.iter_mut() {
+            if *x == 1 {
+                *x = 0xE9;
+            }
+        }
+        b
     }
 }
 
@@ -517,7 +561,13 @@ fn phase_case(src: &mut Src, root: &Path) -> CaseResult {
         uses.push("$s");
     }
     let hostile = src.pick(&p.values).clone();
-    let body = format!("[{}, ({hostile} | try (tojson, @sh, @uri, (strptime(\"%Q\")? // 0), (ltrimstr(\"/\")), input_filename) catch \"err\")]", uses.join(", "));
+    // --in-place is the documented exception: its temporary file must not outlive the run, however it ends
+    let in_place = src.chance(70);
+    let ending = if in_place { *src.pick(&["", " | if .[0] == 1 then error(\"boom\") else . end", " | if .[0] == 1 then halt else . end", " | if .[0] == 0 then (\"bye\" | halt_error(1)) else . end", " | if .[0] == 2 then {a: .}.a.b.c else . end"]) } else { "" };
+    if in_place {
+        args.push("-i".into());
+    }
+    let body = format!("[{}, ({hostile} | try (tojson, @sh, @uri, (strptime(\"%Q\")? // 0), (ltrimstr(\"/\")), input_filename) catch \"err\")]{ending}", uses.join(", "));
     let prog = format!("{pre}{body}");
     if src.chance(100) {
         let _ = std::fs::write(dir.join("main.jq"), &prog);
@@ -528,7 +578,7 @@ fn phase_case(src: &mut Src, root: &Path) -> CaseResult {
     args.extend(inputs.iter().cloned());
     let case = json!({"command": format!("jaq {}", args.iter().map(|a| format!("{a:?}")).collect::<Vec<_>>().join(" ")), "program": prog});
     vcore::runner::note_case(|| case.to_string());
-    let r = traced(&dir, &args, &inputs, &[]).map_err(|e| CaseFail::new("harness-spawn", e.to_string(), json!({})))?;
+    let r = traced_ip(&dir, &args, &inputs, &[], in_place).map_err(|e| CaseFail::new("harness-spawn", e.to_string(), json!({})))?;
     let intact = canary_intact(&p, &dir);
     let _ = std::fs::remove_dir_all(&dir);
     if !r.offences.is_empty() {
@@ -537,12 +587,15 @@ fn phase_case(src: &mut Src, root: &Path) -> CaseResult {
     if let Err(e) = intact {
         return Err(CaseFail::new("canary-changed", e, case));
     }
-    if !r.boundary_found || r.status != 0 {
+    if !r.boundary_found || (r.status != 0 && ending.is_empty()) {
         return Err(CaseFail::new("harness-scenario-does-not-run", format!("exit {} stderr {}", r.status, r.stderr.chars().take(400).collect::<String>()), case));
     }
     let mut ok = CaseOk::new(uses.len() > 1, fnv_str(&[&case.to_string()])).class(if nin > 1 { "several-input-files" } else { "one-input-file" });
     if uses.len() > 2 {
         ok = ok.class("modules-and-data-loaded-before-execution");
+    }
+    if in_place {
+        ok = ok.class(if ending.is_empty() { "in-place-run-that-succeeds" } else { "in-place-run-that-may-end-early" });
     }
     if sample {
         ok = ok.desc(Some(case));
@@ -559,8 +612,8 @@ pub fn run(mut rep: Report) -> ! {
     rep.set_rule(&format!(
         "monitor: strace -f on the jaq binary of the tree recording open/openat/openat2/creat, socket/connect/bind/sendto, execve/fork/vfork/clone, unlink/rename/mkdir/rmdir/link/symlink/chmod/chown/truncate/mknod families; the execution phase starts at the open of the first input file named on the command line; in it only read-only opens of the remaining input files and of the time-zone database (/usr/share/zoneinfo, /etc/localtime, /etc/timezone; path normalised, so ../ escapes count) are allowed, every other recorded call - attempted or successful - is a violation; canary files must be unchanged and the canary directory must gain no entry; \
          (1) {} callables (all native filters and prelude definitions except repl, halt, halt_error, until) x {tuples} tuples (input and every argument drawn from a pool of {} hostile values: canary and traversal paths, file:// and http:// URLs, shell command injections, strptime/strftime formats with %Q/%Z, time strings with zone names that are paths, plain values), {per_batch} guarded calls per process (program given with -f); evaluation = one call, non-trivial = the call accepted its arguments (produced a value); \
-         (1b) every time/date filter x 41 inputs (epoch numbers, broken-down times, time strings whose zone name is a traversal path, an absolute path, a real zone, an unknown zone) x 19 arguments (zone-aware formats %Q %Z %:Q and zone names), with TZ unset and TZ=Europe/Vienna; (2) hostile documents (26 templates: XML external DTD / entities / parameter entities / stylesheet PI / XInclude / schemaLocation, YAML !include / python tags / %TAG / merge keys / binary, TOML, CSV/TSV formula cells, JSON $ref, CBOR tags 32 / 24 / 55799 / unknown) x 7 canary spellings x span mutations, 2-6 per process, decoded as input files (--from, or by extension) or by the from* filters; non-trivial = a document decoded to a value; \
-         (3) command lines with include/import of modules (search metadata and -L), data imports in the main program and in a module, --rawfile, --slurpfile, -f, 1-3 input files whose values are hostile strings passed to tojson/@sh/@uri/strptime/ltrimstr: everything loaded must be opened before the first input file",
+         (1b) every time/date filter x 41 inputs (epoch numbers, broken-down times, time strings whose zone name is a traversal path, an absolute path, a real zone, an unknown zone) x 19 arguments (zone-aware formats %Q %Z %:Q and zone names), with TZ unset and TZ=Europe/Vienna; (2) hostile documents (34 templates, incl. documents that are not valid UTF-8 and declare another encoding: XML external DTD / entities / parameter entities / stylesheet PI / XInclude / schemaLocation, YAML !include / python tags / %TAG / merge keys / binary, TOML, CSV/TSV formula cells, JSON $ref, CBOR tags 32 / 24 / 55799 / unknown) x 7 canary spellings x span mutations, 2-6 per process, decoded as input files (--from, or by extension) or by the from* filters; non-trivial = a document decoded to a value; \
+         (3) command lines with include/import of modules (search metadata and -L), data imports in the main program and in a module, --rawfile, --slurpfile, -f, 1-3 input files whose values are hostile strings passed to tojson/@sh/@uri/strptime/ltrimstr: everything loaded must be opened before the first input file; with --in-place (the documented exception) and filters that fail or halt at the second file, the temporary file created next to an input must be renamed onto it or removed before the process ends",
         sigs.len(),
         pool(Path::new("/nonexistent-c06")).values.len()
     ));
